@@ -22,4 +22,18 @@ CHECKS = {
                  'events in the same virtual instant as a deadline/cancel may go either way'),
         'technique': 'deterministic simulation (virtual-time asyncio loop, simulated TCP, scripted server/peers) + reference-model history check',
     },
+    'C11': {
+        'category': 'fault_enumeration',
+        'text': ('every cell of the outcome matrix mode x direct-outcome x indirect-outcome x ports-offered x '
+                 'port-preference (400 cells) and of the connect-back matrix is run in every batch (complete '
+                 'enumeration of that finite fault axis); the seeded search varies delays, relative order of the two '
+                 'outcomes down to loop-iteration alignment inside one virtual instant, connection type, a second '
+                 'concurrent request and cancellation of the caller at drawn points. Each run is judged by an outcome '
+                 'table (can a path work?) and by residue checks 8 s and 100 s after the call ended.'),
+        'design_ref': 'DESIGN.md section 3 (C11)',
+        'note': ('direct works iff accepted within 10 s and not reset at connect; indirect works iff server link up and '
+                 'pierce within 60 s; a connection announced via PeerInitializedEvent before the caller was cancelled may '
+                 'remain; private waiter tables are read for one clause only (behavioural residue test is independent)'),
+        'technique': 'deterministic simulation with enumerated connect-outcome matrix + seeded timing/cancellation search',
+    },
 }
